@@ -277,12 +277,19 @@ func c02Families(thorough bool) []progFamily {
 					if !emit([]T{Asg("run", Fn(Ps("r"), Blk(Asg("acc", L()), preLoop, L(N("acc"), N("r"))))), Call("run", I(0))}) {
 						return
 					}
+					third := base[:2]
 					if thorough {
-						for _, c := range base[:6] {
-							loop := ForN([]string{"i", "j", "k"}, []T{a.E, b.E, c.E}, zipBody([]string{"i", "j", "k"}))
-							if !emit(pls[0].F(nil, loop)) || !emit(pls[1].F(nil, loop)) {
-								return
-							}
+						third = base[:6]
+					}
+					for _, c := range third {
+						loop := ForN([]string{"i", "j", "k"}, []T{a.E, b.E, c.E}, zipBody([]string{"i", "j", "k"}))
+						if !emit(pls[0].F(nil, loop)) || !emit(pls[1].F(nil, loop)) {
+							return
+						}
+						// four iterators, the third variable one that exists already
+						loop4 := ForN([]string{"i", "j", "r", "m"}, []T{a.E, c.E, b.E, base[0].E}, Asg("acc", Bin("+", N("acc"), L(L(N("i"), N("j"), N("r"), N("m"))))))
+						if !emit([]T{Asg("run", Fn(Ps("r"), Blk(Asg("acc", L()), loop4, L(N("acc"), N("r"))))), Call("run", I(0))}) {
+							return
 						}
 					}
 				}
